@@ -35,7 +35,7 @@ REQUIRED = ["defs:Container._checkForCrossReferences", "defs:Container.fillnumpy
 
 
 def plan(tier):
-    return 2400 if tier == "quick" else 60000
+    return 4000 if tier == "quick" else 60000
 
 
 def budget(tier):
